@@ -430,7 +430,61 @@ def correspond(ctx):
                 if fails and json.dumps(detail, sort_keys=True) not in have:
                     res.impl_violations.append(detail)
     res.distribution["corpus_cases"] = ncorpus
+    cv, cev, ncomp = _compound_sweep(ctx)
+    res.impl_violations.extend(cv)
+    res.evaluations += cev
+    res.distribution["compound_specs"] = ncomp
+    res.distribution["compound_evaluations"] = cev
+    ctx.notes.append("tuple-valued quantised specs found by reflection (Vector*U8/U16, FixedPointVector3U16, PackedQuat over them): %d; "
+                     "raw-tuple round trip checked on the real objects in object and plain-data form (%d evaluations)" % (ncomp, cev))
     return res
+
+
+def _compound_sweep(ctx, only=None):
+    """tuple-valued quantised representations (Vector3U16, Vector4U8, FixedPointVector3U16, PackedQuat over them): decoding any
+    raw tuple and re-encoding gives back the same raw integers, in object form and in plain-data form.  By the scalar
+    theorems every component is a bit-exact inverse on its own; this sweep is the clause that the tuple layer (coordinate
+    classes, PackedQuat) keeps the components apart.  Raw tuples: the product of the wire type's boundary values per
+    component plus seeded random tuples.  Returns (violations, evaluations, number of compound specs)."""
+    import itertools
+    import struct
+    import hippolyzer.lib.base.serialization as se
+    rng = ctx.rng
+    viol, evals = [], 0
+    comps = T.collect_compounds()
+    for path, spec, fmt, n in comps:
+        if only is not None and path != only:
+            continue
+        lo, hi = {"B": (0, 255), "b": (-128, 127), "H": (0, 65535), "h": (-32768, 32767)}[fmt]
+        mid = (lo + hi) // 2
+        edge = sorted({lo, lo + 1, mid, mid + 1, hi - 1, hi})
+        tuples = list(itertools.product(edge, repeat=n)) if n <= 3 else list(itertools.product((lo, mid, mid + 1, hi), repeat=n))
+        tuples += [tuple(rng.randrange(lo, hi + 1) for _ in range(n)) for _ in range(ctx.pick(300, 5000))]
+        bad = None
+        for raw in tuples:
+            data = struct.pack("<%d%s" % (n, fmt), *raw)
+            for pod in (False, True):
+                evals += 1
+                try:
+                    reader = se.BufferReader("<", data)
+                    reader.pod = pod
+                    val = reader.read(spec)
+                    w = se.BufferWriter("<")
+                    w.write(spec, val)
+                    out = bytes(w.copy_buffer())
+                    got = list(struct.unpack("<%d%s" % (n, fmt), out)) if len(out) == len(data) else "len %d" % len(out)
+                except Exception as e:   # noqa
+                    got = "EXC:" + type(e).__name__
+                if got != list(raw):
+                    bad = {"clause": "decoding any raw tuple of a quantised vector/quaternion field and re-encoding gives back the same integers",
+                           "class": "compound-roundtrip", "spec": "%s(%s)" % (type(spec).__name__, fmt), "path": path[:160],
+                           "raw": list(raw), "pod": pod, "got": got}
+                    break
+            if bad:
+                break
+        if bad:
+            viol.append(bad)
+    return viol, evals, len(comps)
 
 
 def search(ctx, hints):
@@ -488,6 +542,12 @@ def diagnose(ctx, stmt):
 
 
 def replay(ctx, case):
+    if case.get("class") == "compound-roundtrip":
+        cv, _, _ = _compound_sweep(ctx)
+        for v in cv:
+            if v.get("spec") == case.get("spec"):
+                return True, v
+        return (bool(cv), cv[0]) if cv else (False, "every compound spec round-trips its raw tuples")
     st = _prepare(ctx)
     ident = case.get("instance", "")
     base, _, dur = ident.partition("@")
